@@ -12,6 +12,7 @@ class C09(LZCheckMixin, PropertyCheck):
     rule = ("streams: as C08 through LZ13CompressionFormat (all strings over 2 and 3 letters up to a bound, every run length 0..299/699 "
             "- covering the length forms <=16, 17..272, >272 -, long runs around 4096, structured random inputs <= 6 KiB against the model, "
             "larger ones oracle only), repeats that continue beyond 65808 bytes (runs and short periods of 65536..140000 bytes, blank regions), "
+            "an incompressible prefix > 64 KiB followed by a run longer than two maximal matches, zeros + a literal tail just below 16 MiB, "
             "a slice of the family through the enum CompressionFormat, the 16 MiB boundary (2^24-2, 2^24-1 with the 24-bit size; 2^24, 2^24+1: Ok must use the "
             "extended size form and round-trip, Err accepted), the empty input, both build profiles. The three wrapper length bytes are compared with the model for "
             "inputs <= %d bytes and masked above. Non-trivial = the stream contains a back-reference; distinct = distinct input." % HDR_MODEL_MAX)
@@ -66,7 +67,7 @@ class C09(LZCheckMixin, PropertyCheck):
 
     def shrink_candidates(self, case):
         parts = case.line.split(" ")
-        if parts[2][0] == "P":
+        if parts[2][0] == "P" or "+" in parts[2]:
             for t in shrink_ptok(parts[2]):
                 yield Case("%s 0 %s" % (parts[0], t), case.stream)
             return
